@@ -121,8 +121,10 @@ CLAIMED["C01"] = {
             "returned the pending call is answered or the child can move: in poll and in the blocking read/write of the single-stream "
             "shortcut), c01_maximal_run_has_returned, c01_never_blocks_in_io, c01_polls_all_streams, c01_no_eof_spin. With a time limit "
             "termination is C04's (c04_bounded_overrun). On every run the harness oracle checks the real Communicator under the "
-            "simulated kernel (blocked call while the child cannot move, 300 calls without progress, 20 s without a system call).",
-    "note": COMM_NOTE,
+            "simulated kernel (blocked call while the child cannot move, 300 calls without progress, 20 s without a system call); a "
+            "real-kernel part runs a command that closes its stdout and stderr and lives on (alone and as the last command of a "
+            "pipeline): the exchange must end at end-of-file, not at process exit.",
+    "note": COMM_NOTE + " The real-kernel part uses wall-clock thresholds with a wide margin (returns in < sleep - 700 ms).",
 }
 CLAIMED["C02"] = {
     "engine": "comm", "design_ref": "DESIGN.md section 6, C02",
@@ -156,7 +158,8 @@ CLAIMED["C04"] = {
 }
 SPAWN_NOTE = COMMON_NOTE + ("OS axioms A4 (fork copies the table, exec closes close-on-exec descriptors and keeps mask/dispositions, dup2, "
               "close), A7 (std/Rc drop facts), A8 (credentials). Trace-mode interposer on the real kernel; exec is intercepted (a "
-              "startable program is simulated by exit(0)). WF: parent has 0,1,2 open, caller files >= 3. The model is uniform in "
+              "startable program is simulated by exit(0)). WF: caller files >= 3; the caller's own 0,1,2 are open in most cases and closed "
+              "(every non-empty subset) in the closed= cases of C05/C07/C08. The model is uniform in "
               "descriptor numbers (it only compares them with 0/1/2 and passes them back).")
 CLAIMED["C05"] = {
     "engine": "spawn", "design_ref": "DESIGN.md section 6, C05",
@@ -182,7 +185,9 @@ CLAIMED["C07"] = {
     "technique": "Lean 4 proof (invariant over the pre-fork steps for every answer list) + fault enumeration on the real code",
     "text": "c07_no_fd_left_before_fork (any pipe/fcntl/fork failing, invalid config, NUL: exactly the owned descriptors -- every pipe() "
             "answer and every file handed in -- are closed, no wait), c07_ok_iff_status_empty, c07_child_reports_iff_failed, "
-            "c07_failed_child_is_reaped (also when detached), c07_errno_roundtrip. On the real code every occurrence of every fallible "
+            "c07_failed_child_is_reaped (also when detached), c07_errno_roundtrip, c07_status_channel_survives_child_setup (at every fork the "
+            "status write end is above 2 -- relocated with F_DUPFD_CLOEXEC when pipe() answered 0-2 -- and every dup2 of the child targets "
+            "0-2; genuine defect F12 found here and repaired by fix 5fc4fbc). On the real code every occurrence of every fallible "
             "step in parent and child is made to fail in turn (thorough: all valid triples x detached, 3144 plans) and the model must emit "
             "the same calls; oracles: error = injected errno, parent table unchanged, no child left (wait4(-1)).",
     "note": SPAWN_NOTE + " A failing read of the status channel itself and pthread_sigmask failing are outside the property's fault list "
@@ -193,7 +198,8 @@ CLAIMED["C08"] = {
     "technique": "Lean 4 proof (close-on-exec marking invariant) + trace conformance with the child's full descriptor table at exec",
     "text": "c08_parent_ends_cloexec (at the fork the parent end of every stream pipe has had FD_CLOEXEC set successfully), status_marked, "
             "c08_parent_releases_child_ends, c08_child_closes_status_read; single spawning thread. On the real code the child's whole "
-            "descriptor table at exec must contain nothing but 0,1,2 without close-on-exec, with 0 or 3 other live Popens.",
+            "descriptor table at exec must contain nothing but 0,1,2 without close-on-exec, with 0 or 3 other live Popens, also for a "
+            "caller whose own descriptors 0-2 are (partly) closed.",
     "note": SPAWN_NOTE + " Known finding C08 concurrent-spawn-window: for spawns from several threads the property does not hold "
             "(pipe ends are inheritable between pipe() and fcntl(), child ends until the launch's own fork is over); the check "
             "reproduces every such point deterministically (an unrelated launch run right after the k-th pipe()) and prints "
